@@ -206,6 +206,36 @@ func s1x() {
 	vrt.Observe("rmErr=%v recv=%d", rmErr != nil, len(h.received))
 }
 
+// S2x: self-removing filter || RemoveHandler(same id) || one frame, no
+// draining threads (exhaustible).
+func s2x() {
+	a, b := vnet.NewPair("ep", "peer")
+	ep := net.NewEndPoint(a)
+	h, hq := registerLight(ep, "once", matchAllOnce)
+	h.early = false
+	vrt.Explore()
+	var rmErr error
+	w1 := vrt.GoWorker("remover", func() { rmErr = ep.RemoveHandler(h.id) })
+	w2 := vrt.GoWorker("peer", func() {
+		m := frame(1, 2)
+		m.Write(b)
+	})
+	vrt.Quiesce()
+	workersDone(w1, w2)
+	h.settleLight(hq)
+	if h.closerCalls != 1 {
+		vrt.Failf("closer-count/once", "closer invoked %d times (self-removal racing explicit removal)", h.closerCalls)
+	}
+	if rmErr == nil && len(h.received) != 0 {
+		vrt.Failf("removed-twice/once", "RemoveHandler succeeded although the filter had already removed itself")
+	}
+	if rmErr != nil {
+		vrt.Flag("self-removed-first")
+	}
+	h.check()
+	vrt.Observe("rmErr=%v recv=%d", rmErr != nil, len(h.received))
+}
+
 // S2: a self-removing filter || RemoveHandler(same id) || two incoming frames.
 func s2() {
 	a, b := vnet.NewPair("ep", "peer")
@@ -553,6 +583,7 @@ func init() {
 		reg.Register(&reg.Scenario{Property: "C17", Name: name, Body: body, Quick: q, Thorough: t, Doc: doc, MustFlag: must})
 	}
 	add("s1x-remove-dispatch-close-exhaustive", s1x, 2, 99, "S1 with one handler and no draining threads: RemoveHandler(h) || peer frame || Close(); the whole interleaving tree", "close-won", "delivered-then-removed")
+	add("s2x-selfremove-remove-exhaustive", s2x, 2, 99, "S2 with one frame and no draining threads: keep=false filter || RemoveHandler(same id) || one frame; the whole interleaving tree", "self-removed-first")
 	add("s1-remove-dispatch-close", s1, 2, 99, "RemoveHandler(h) || peer frame matching h || Close()", "close-won", "delivered-then-removed")
 	add("s2-selfremove-remove-frames", s2, 2, 99, "keep=false filter || RemoveHandler(same id) || two frames", "self-removed-first")
 	add("s3a-peerclose-between-frames", s3(0), 2, 99, "peer closes between frames || RemoveHandler || MakeHandler", "late-handler-closed", "late-handler-after-shutdown")
